@@ -303,7 +303,8 @@ Definition sc_of (s : st) (z : Z) : option nat :=
   if (0 <=? z) && (z <? zn (nsc s)) then Some (Z.to_nat z) else None.
 
 (* ops: [1; a1..an] resolver update | [2; sc; state] sub-channel state | [4] resolver error
-        | [5] 250ms pass (the timer fires if scheduled) | [6] ExitIdle *)
+        | [5] 250ms pass (the timer fires if scheduled) | [6] ExitIdle
+        | [8; k] a cancelled timer callback runs late: no-op (the `cancelled` flag), like every other word *)
 Definition step_main (s : st) (op : word) : st * list word :=
   match op with
   | 1 :: l => resolver_update s l
